@@ -80,7 +80,9 @@ def run(ctx):
     mp = os.path.join(out, "meta.json")
     if os.path.exists(mp):
         meta["tlc_schedules"] = json.load(open(mp))
-    sizes = {"direct": (40, 40), "runner": (25, 40), "creator": (25, 40), "chain": (40, 40)}
+    # "exec": the real localBuildExecutor on top of the creator chain (the
+    # action ends normally, by an error before/in the command, or cancelled)
+    sizes = {"direct": (40, 40), "runner": (25, 40), "creator": (25, 40), "chain": (40, 40), "exec": (40, 40)}
     for mode, (nt, steps) in sizes.items():
         if not q:
             nt *= 10
@@ -91,7 +93,7 @@ def run(ctx):
         # goroutines that force preemption at arbitrary points
         _driver(ctx, binary, "TestRandom", "rand_direct_p1",
                 {"VERIF_MODE": "direct", "VERIF_N": 200, "VERIF_STEPS": 40, "GOMAXPROCS": 1}, traces)
-        for mode in ("direct", "creator", "chain"):
+        for mode in ("direct", "creator", "chain", "exec"):
             _driver(ctx, binary, "TestRandom", "rand_%s_hostile" % mode,
                     {"VERIF_MODE": mode, "VERIF_N": 200, "VERIF_STEPS": 40, "GOMAXPROCS": 2, "VERIF_SPIN": 6}, traces)
     if not traces:
@@ -108,12 +110,16 @@ def run(ctx):
         rule=("TLC explores IdleInvoker.tla exhaustively: 3 threads at critical-section granularity (cleaner ok/fail, "
               "cancellation while parked, deadlock check), the Shared(Clean(Root)) chain with 2 threads and Mkdir/Enter/"
               "Remove/RemoveAll faults, liveness with 2 threads under fairness. The real IdleInvoker is driven inside "
-              "testing/synctest with a gated cleaner: every harness step from every reachable quiescent state (2..4 "
+              "testing/synctest with a gated cleaner (in every other random schedule the real ChainedCleaner over two gated "
+              "parts, either of which the harness makes fail): every harness step from every reachable quiescent state (2..4 "
               "threads), schedules generated by tlc -simulate, seeded random schedules directly and through CleanRunner, "
               "CleanBuildDirectoryCreator and the creator chain over the real in-memory build directory with fault "
-              "injection. TLC validates every recorded event against the set of specification states consistent with "
+              "injection, and through the real localBuildExecutor on top of that chain with a gated fake runner (the "
+              "action ends normally, by a runner error, by a missing input root or command, by directory faults or by "
+              "cancellation: when Execute returns the build directory must have been closed and the invoker released). "
+              "TLC validates every recorded event against the set of specification states consistent with "
               "the log. Distinct = distinct spec states + validated events."),
-        explanation="conformance of idle_invoker.go, clean_runner.go, clean/shared/root build directory creators to IdleInvoker.tla",
+        explanation="conformance of idle_invoker.go, clean_runner.go, clean/shared/root build directory creators and the build directory handling of local_build_executor.go to IdleInvoker.tla",
         exhaustive=True,
         extra={"drivers": meta},
     )
